@@ -1,7 +1,376 @@
-"""pandas groupby-aggregate at the set level (filled in with the block-reduction properties)."""
-from .core import Unsupported
+"""pandas groupby / aggregate and numpy.unique at the SET level.
+
+For an integer label array L (one label per row) the *group structure* is:
+  G          number of distinct labels (>= 1 when there are rows)
+  key(g)     the g-th distinct label, strictly increasing in g          (pandas: groups sorted by key;
+  grp(p)     the group of row p:  key(grp(p)) = L[p], 0 <= grp(p) < G    numpy.unique: sorted unique values)
+  rep(g)     some row of group g: L[rep(g)] = key(g)                    (every group is non-empty)
+An aggregation of a column over a group is the uninterpreted function
+  AGG_<reduction>(member set of the group, column values [, weights])   over z3 lambda arrays,
+so that the code and the contract agree exactly when the SAME reduction is applied to the SAME
+values with the SAME weights over the SAME block - which is the wiring the properties are about.
+All of this is an ASSUMED contract on pandas / numpy."""
+import z3
+
+from . import spec as S
+from .arr import SymArr, as_array, havoc_array, new_array
+from .core import SymBool, SymNum, Unsupported, and_, ctx, div, implies, is_sym, ite, not_, or_, to_z3, _numeric
+
+
+def _use(name):
+    ctx().used_prelude.add(name)
+
+
+class GroupStructure:
+    def __init__(self, labels):
+        c = ctx()
+        self.labels = labels
+        self.lab = labels.snapshot()
+        self.n = labels.shape[0]
+        tag = c.fresh_name("grp")
+        self.G = c.fresh("ngroups", "int")
+        self._key = z3.Function("key_" + tag, z3.IntSort(), z3.IntSort())
+        self._grp = z3.Function("grpof_" + tag, z3.IntSort(), z3.IntSort())
+        self._rep = z3.Function("rep_" + tag, z3.IntSort(), z3.IntSort())
+        from .arr import _storage_ids
+
+        self._leaf = {k: next(_storage_ids) for k in ("key", "grp", "rep")}
+        G, n = self.G, self.n
+        c.assume(and_(G >= 0, implies(n >= 1, G >= 1), G <= n))
+        S.assume(S.Forall((n,), lambda p: and_(self.grp(p) >= 0, self.grp(p) < G, self.key(self.grp(p)) == self.lab(p)), name="groups.every_row_has_its_group"))
+        S.assume(S.Forall((G,), lambda g: and_(self.rep(g) >= 0, self.rep(g) < n, self.lab(self.rep(g)) == self.key(g), self.grp(self.rep(g)) == g), name="groups.non_empty"))
+        S.assume(S.Forall((G, G), lambda g, h: implies(g < h, self.key(g) < self.key(h)), name="groups.keys_strictly_increasing"))
+        c.used_axioms.add("group structure of a label array: distinct labels sorted ascending, every row in exactly the group of its label, no empty group")
+
+    def _app(self, which, f, x):
+        ctx().leaf_touch(self._leaf[which], (x,))
+        return SymNum(f(to_z3(x)), "int")
+
+    def key(self, g):
+        return self._app("key", self._key, g)
+
+    def grp(self, p):
+        return self._app("grp", self._grp, p)
+
+    def rep(self, g):
+        return self._app("rep", self._rep, g)
+
+    def member_lambda(self, g):
+        p = z3.Int("row!")
+        lab = self.lab(SymNum(p, "int"))
+        return z3.Lambda([p], z3.And(p >= 0, p < to_z3(self.n), to_z3(lab) == to_z3(self.key(g))))
+
+
+def structure_of(labels):
+    """One group structure per label array *content* (cached on the path)."""
+    c = ctx()
+    labels = as_array(labels)
+    key = (labels.storage.id, labels.storage.nwrites, id(labels._fwd))
+    cache = c.ghost.setdefault("group_structures", {})
+    if key not in cache:
+        if labels.ndim != 1:
+            raise Unsupported("group structure of a non 1-D label array")
+        cache[key] = GroupStructure(labels)
+    return cache[key]
+
+
+def _body(fn, g):
+    """Canonical text of a column expression over the bound row variable, with the group index abstracted."""
+    c = ctx()
+    p = z3.Int("row!")
+    c.native_divmod = getattr(c, "native_divmod", 0) + 1
+    try:
+        v = fn(SymNum(p, "int"))
+    finally:
+        c.native_divmod -= 1
+    t = to_z3(_numeric(v), "real")
+    if isinstance(g, SymNum):
+        t = z3.substitute(t, (g.t, z3.Int("grp!")))
+    return z3.simplify(t).sexpr()
+
+
+def _holds_for_all_rows(gs, pred):
+    """Try to prove pred(p) for an arbitrary row p (used to justify sign facts about aggregates)."""
+    from .core import to_z3_bool
+
+    c = ctx()
+    p = c.fresh("anyrow", "int")
+    r, _ = c.check([to_z3_bool(and_(p >= 0, p < gs.n)), z3.Not(to_z3_bool(pred(p)))], timeout_ms=5000)
+    return r == "unsat"
+
+
+_AGG_FUNCS = {}
+
+
+def agg_term(kind, gs, g, val_fn, wt_fn=None):
+    """The aggregate  kind{ (val(p), wt(p)) : p in group g }  as an uninterpreted function of the group index.
+
+    One function symbol per (reduction, grouping, value expression, weight expression) - identified by the
+    canonical text of the expressions over the row variable - so two aggregates are the same term exactly when
+    the SAME reduction is applied to the SAME values with the SAME weights over the SAME group."""
+    import hashlib
+
+    c = ctx()
+    vb = _body(val_fn, g)
+    wb = None if wt_fn is None else _body(wt_fn, g)
+    sig = "%s|%s|%s|%s" % (kind, id(gs), vb, wb)
+    name = "AGG_%s_%s" % (kind, hashlib.sha1(sig.encode()).hexdigest()[:10])
+    if name not in _AGG_FUNCS:
+        _AGG_FUNCS[name] = z3.Function(name, z3.IntSort(), z3.RealSort())
+    r = SymNum(_AGG_FUNCS[name](to_z3(g)), "real")
+    cache = c.ghost.setdefault("agg_sign_cache", {})
+    if name not in cache and not c.in_spec_probe():
+        cache[name] = []
+        facts = []
+        if kind.startswith("var") or kind.startswith("std"):
+            facts.append("nonneg")
+        elif kind in ("sum", "mean", "median", "min", "max", "average"):
+            wt_ok = wt_fn is None or _holds_for_all_rows(gs, lambda p: _numeric(wt_fn(p)) > 0)
+            if wt_ok and _holds_for_all_rows(gs, lambda p: _numeric(val_fn(p)) > 0):
+                facts.append("pos")
+            elif wt_ok and _holds_for_all_rows(gs, lambda p: _numeric(val_fn(p)) >= 0):
+                facts.append("nonneg")
+        cache[name] = facts
+    for fct in cache.get(name) or []:
+        c.assume(r > 0 if fct == "pos" else r >= 0)
+        c.used_axioms.add("aggregates over a non-empty group: variance >= 0; sum/mean/median/min/max/weighted average of positive (non-negative) values with positive weights is positive (non-negative)")
+    return r
+
+
+class GroupIndex:
+    def __init__(self, gs, g):
+        self.gs, self.g = gs, g
+
+
+class GroupSeries:
+    """The values of one (possibly derived) column restricted to the rows of group g."""
+
+    __array_priority__ = 3000
+
+    def __init__(self, gs, g, val_fn):
+        self.gs, self.g, self.val = gs, g, val_fn
+
+    @property
+    def index(self):
+        return GroupIndex(self.gs, self.g)
+
+    @property
+    def values(self):
+        return self
+
+    def _bin(self, o, op, swap=False):
+        if isinstance(o, GroupSeries):
+            if o.gs is not self.gs:
+                raise Unsupported("arithmetic between series of different groupings")
+            of = o.val
+        elif isinstance(o, (int, float, SymNum)):
+            of = lambda p: o
+        else:
+            return NotImplemented
+        sf = self.val
+        if swap:
+            return GroupSeries(self.gs, self.g, lambda p: op(of(p), sf(p)))
+        return GroupSeries(self.gs, self.g, lambda p: op(sf(p), of(p)))
+
+    def __add__(self, o):
+        return self._bin(o, lambda a, b: a + b)
+
+    __radd__ = __add__
+
+    def __sub__(self, o):
+        return self._bin(o, lambda a, b: a - b)
+
+    def __rsub__(self, o):
+        return self._bin(o, lambda a, b: a - b, True)
+
+    def __mul__(self, o):
+        return self._bin(o, lambda a, b: a * b)
+
+    __rmul__ = __mul__
+
+    def __pow__(self, k):
+        from .core import power
+
+        return GroupSeries(self.gs, self.g, lambda p: power(self.val(p), k))
+
+    # reductions
+    def _agg(self, kind, weights=None):
+        _use("pandas/numpy reduction over a group: %s" % kind)
+        if weights is not None:
+            if not isinstance(weights, GroupSeries) or weights.gs is not self.gs:
+                raise Unsupported("weights that are not a series of the same group")
+            c = ctx()
+            # alignment: the weights must be restricted to the SAME group (numpy would mis-pair otherwise)
+            same = (weights.g is self.g) or (isinstance(weights.g, SymNum) and isinstance(self.g, SymNum) and weights.g.t.eq(self.g.t)) or (not is_sym(weights.g) and not is_sym(self.g) and weights.g == self.g)
+            if not same and not c.in_spec:
+                c.oblige("groupby.weights_of_the_same_group[%s]" % c.fresh_name("gw"), weights.g == self.g, kind="domain")
+            return agg_term(kind, self.gs, self.g, self.val, weights.val)
+        return agg_term(kind, self.gs, self.g, self.val)
+
+    def sum(self):
+        return self._agg("sum")
+
+    def mean(self):
+        return self._agg("mean")
+
+    def min(self):
+        return self._agg("min")
+
+    def max(self):
+        return self._agg("max")
+
+    def median(self):
+        return self._agg("median")
+
+    def var(self, ddof=1):
+        return self._agg("var_ddof%d" % ddof)
+
+    def __array_function__(self, func, types, args, kwargs):
+        name = getattr(func, "__name__", "")
+        return group_reduce(name, *args, **kwargs)
+
+
+NUMPY_REDUCTIONS = {"mean": "mean", "median": "median", "sum": "sum", "amin": "min", "amax": "max", "min": "min", "max": "max", "var": "var_ddof0", "std": "std_ddof0", "average": "mean"}
+
+
+def group_reduce(name, values, weights=None, **kw):
+    if not isinstance(values, GroupSeries):
+        raise Unsupported("numpy.%s on %r" % (name, type(values)))
+    if kw:
+        raise Unsupported("numpy.%s with %s on a group" % (name, sorted(kw)))
+    if name == "average" and weights is not None:
+        return values._agg("average", weights)
+    if name not in NUMPY_REDUCTIONS:
+        raise Unsupported("numpy.%s over a group has no assumed contract" % name)
+    if weights is not None:
+        raise Unsupported("numpy.%s with weights" % name)
+    return values._agg(NUMPY_REDUCTIONS[name])
+
+
+class GroupFrame:
+    """The sub-frame of one group (groupby.apply)."""
+
+    def __init__(self, gb, g):
+        self.gb, self.g = gb, g
+
+    def __getitem__(self, name):
+        col = self.gb.frame.cols[name]
+        snap = col.snapshot()
+        return GroupSeries(self.gb.gs, self.g, lambda p: snap(p))
+
+
+class SymAggregated:
+    """Result of groupby(...).aggregate / apply: one row per group, ascending key."""
+
+    def __init__(self, gs, columns):
+        self.gs = gs
+        self.cols = columns  # name or (name, sub) -> fn(g) -> V
+        self.assigned = {}
+
+    def __getitem__(self, key):
+        from .prelude_pd import SymSeries
+
+        if isinstance(key, list):
+            raise Unsupported("multi-column selection on an aggregated frame")
+        if key in self.assigned:
+            return SymSeries(self.assigned[key], name=key)
+        if key not in self.cols:
+            raise KeyError(key)
+        fn = self.cols[key]
+        return SymSeries(new_array((self.gs.G,), lambda idx: fn(idx[0]), "f"), name=key)
+
+    def __setitem__(self, key, value):
+        arr = as_array(value)
+        c = ctx()
+        if arr.ndim != 1:
+            raise ValueError("Length of values does not match length of index")
+        c.oblige("aggregated.setitem_length[%s]" % c.fresh_name("ag"), arr.shape[0] == self.gs.G, kind="domain")
+        self.assigned[key] = arr.copy()
 
 
 class SymGroupBy:
     def __init__(self, frame, key):
-        raise Unsupported("DataFrame.groupby")
+        _use("pandas.DataFrame.groupby")
+        if not isinstance(key, str) or key not in frame.cols:
+            raise Unsupported("groupby on %r" % (key,))
+        self.frame, self.keyname = frame, key
+        lab = frame.cols[key]
+        if lab.kind != "i":
+            raise Unsupported("groupby on a non-integer key column")
+        self.gs = structure_of(lab)
+
+    def _apply_callable(self, fn, colname, g):
+        col = self.frame.cols[colname]
+        snap = col.snapshot()
+        out = fn(GroupSeries(self.gs, g, lambda p: snap(p)))
+        if isinstance(out, GroupSeries):
+            raise Unsupported("aggregation function did not reduce the group to a scalar")
+        return out
+
+    def aggregate(self, how):
+        _use("pandas.GroupBy.aggregate")
+        others = [k for k in self.frame.cols if k != self.keyname]
+        cols = {}
+        if callable(how):
+            for k in others:
+                cols[k] = (lambda g, k=k: self._apply_callable(how, k, g))
+        elif isinstance(how, dict):
+            for k, spec_ in how.items():
+                if k not in self.frame.cols:
+                    raise KeyError("Column(s) ['%s'] do not exist" % k)
+                if callable(spec_):
+                    cols[k] = (lambda g, k=k, f=spec_: self._apply_callable(f, k, g))
+                elif isinstance(spec_, (tuple, list)):
+                    for sub, f in spec_:
+                        cols[(k, sub)] = (lambda g, k=k, f=f: self._apply_callable(f, k, g))
+                else:
+                    raise Unsupported("aggregate spec %r" % (spec_,))
+        else:
+            raise Unsupported("aggregate(%r)" % (how,))
+        # evaluate once at a generic group to surface Unsupported / domain obligations eagerly
+        c = ctx()
+        g0 = c.fresh("g", "int")
+        c.assume(and_(g0 >= 0, g0 < self.gs.G))
+        for f in cols.values():
+            f(g0)
+        return SymAggregated(self.gs, cols)
+
+    agg = aggregate
+
+    def apply(self, fn):
+        """apply(fn) with fn(group_frame) -> one-row DataFrame: columns of the result per group."""
+        _use("pandas.GroupBy.apply")
+        c = ctx()
+        g0 = c.fresh("g", "int")
+        c.assume(and_(g0 >= 0, g0 < self.gs.G))
+        probe = fn(GroupFrame(self, g0))
+        from .prelude_pd import SymRowFrame
+
+        if not isinstance(probe, SymRowFrame):
+            raise Unsupported("groupby.apply with a function that does not return a one-row DataFrame")
+        names = list(probe.names)
+        cols = {}
+        memo = {}
+
+        def row_for(g):
+            key = g.t.get_id() if isinstance(g, SymNum) else ("c", g)
+            if key not in memo:
+                c2 = ctx()
+                c2.in_spec += 1  # re-evaluation for another group index: obligations were emitted for the generic probe
+                try:
+                    memo[key] = fn(GroupFrame(self, g))
+                finally:
+                    c2.in_spec -= 1
+            return memo[key]
+
+        memo[g0.t.get_id()] = probe
+        for k, name in enumerate(names):
+            cols[name] = (lambda g, k=k: row_for(g).value(k))
+        return SymAggregated(self.gs, cols)
+
+
+def np_unique(labels):
+    """numpy.unique of a 1-D integer array: its distinct values in ascending order."""
+    _use("numpy.unique")
+    gs = structure_of(labels)
+    return new_array((gs.G,), lambda idx: gs.key(idx[0]), "i")
